@@ -13,7 +13,7 @@ def run(ctx):
         "correspondence on Gaussian-integer coefficients (corr_C05.py) and AST fingerprints",
         "documented Pauli matrices; numpy oracle (sweep_C05.py) for subtraction, division, dagger, commutator, sparse "
         "export, bsv/transition amplitudes, Trotter-Suzuki, label interning and string round trip",
-        "partial: -, /, hermitian_conjugated, commutator, get_sparse_matrix, PauliLabel interning/str parsing have no "
+        "partial: hermitian_conjugated, get_sparse_matrix, PauliLabel interning/str parsing have no "
         "theorem (sweep only); coefficients are exact ring elements in the theorems (binary64 rounding not modelled)",
     ]
     ctx.translate("tables", tables.run_c06, os.path.join(ctx.work, "gen"), os.path.join(ctx.work, "conjtab.json"))
